@@ -16,6 +16,7 @@ Tie:      the expression engine only exists behind the import-time switch `array
 from __future__ import annotations
 
 import atexit
+import itertools
 import json
 import os
 import subprocess
@@ -287,7 +288,75 @@ def case_joint(ctx, inp):
     ctx.branch(f"joint×{len(inp['progs'])}")
 
 
-CASES = {"trace": case_trace, "pipe": case_pipe, "joint": case_joint}
+def case_tree(ctx, inp):
+    """Function level: the PartialReduce chain that the expression engine's `_tree_reduce` builds for a grid of blocks
+    — number of levels vs the Lean depth loop (`treeDepth`: running maximum over the reduced axes), key structure of every
+    level vs `treePlan` (the model of partial_reduce that C22 proves correct), oracle: every level consumes each block of
+    the previous one exactly once, n_i ≤ k_i^depth on every reduced axis, one output block per kept cell."""
+    nb = list(inp["numblocks"])
+    ans = ask({"tree": inp})
+    if ans["status"] == "unsupported":
+        ctx.branch("unsupported by the engine")
+        return
+    if ans["status"] != "ok":
+        ctx.fail("expression engine: building/computing a grid reduction failed: " + ans.get("error", ans["status"]))
+        return
+    levels = ans["levels"]
+    depth = len(levels)
+    if depth == 0:
+        ctx.fail("no PartialReduce level in a reduction", observed=ans)
+        return
+    split = {int(k): v for k, v in levels[0]["split"].items()}
+    nd = len(nb)
+    axes = sorted(split)
+    sp = [split.get(i) for i in range(nd)]
+    for lv in levels:
+        if {int(k): v for k, v in lv["split"].items()} != split:
+            ctx.fail("levels of one tree use different split_every", observed=[lv["split"], split])
+    if [lv["keepdims"] for lv in levels] != [True] * (depth - 1) + [bool(inp["keepdims"])]:
+        ctx.fail("keepdims of the levels is not (True, …, True, keepdims)", observed=[lv["keepdims"] for lv in levels])
+    if all(k >= 2 for k in split.values()):
+        md, md_last = ctx.lean(Sym("treedepth"), sp, nb)
+        if depth not in (md, md + 1):
+            ctx.fail(f"depth {depth} of the PartialReduce chain is not the depth of the _tree_reduce loop ({md}, or one more "
+                     "through float rounding)", observed=depth, expected=md)
+        elif depth == md + 1:
+            ctx.branch("float-depth-overshoot")
+        if md_last < md:
+            ctx.branch("an earlier reduced axis needs more levels than the last one")
+    model = ctx.lean(Sym("plan"), nb, sp, bool(inp["keepdims"]), depth)
+    impl = [lv["round"] for lv in levels]
+    ctx.eq("PartialReduce key structure of every level", model, impl)
+    prev = sorted(itertools.product(*[range(n) for n in nb]))
+    for r, lv in enumerate(levels):
+        used = sorted(tuple(c) for _, ins in lv["round"] for c in ins)
+        if used != prev:
+            ctx.fail(f"level {r} does not consume every block of the previous level exactly once",
+                     observed={"used": used[:16], "available": prev[:16]})
+            break
+        keys = [tuple(k) for k, _ in lv["round"]]
+        if len(set(keys)) != len(keys):
+            ctx.fail(f"level {r}: several tasks write the same output key (the last one wins)", observed=sorted(keys)[:8])
+            break
+        prev = sorted(keys)
+    for ax in axes:
+        if nb[ax] > split[ax] ** depth:
+            ctx.fail(f"depth {depth} too small on axis {ax}: {nb[ax]} blocks > {split[ax]}^{depth}", observed=depth)
+    exp_nb = [(1 if i in axes else n) for i, n in enumerate(nb) if inp["keepdims"] or i not in axes]
+    if ans["numblocks"] != exp_nb:
+        ctx.fail("numblocks of the reduction result", observed=ans["numblocks"], expected=exp_nb)
+    ref = getattr(np, inp["fn"])(np.ones(tuple(nb)), axis=tuple(axes) if inp["axis"] is not None else None, keepdims=inp["keepdims"])
+    val = P.dec_value(ans["value"])
+    if val.shape != ref.shape or not np.allclose(val, ref):
+        ctx.fail("grid reduction value differs from NumPy", observed=val.tolist(), expected=ref.tolist())
+    ctx.branch(f"depth={min(depth, 4)}")
+    if len(axes) > 1:
+        ctx.branch("multi-axis")
+    if len(set(nb[a] for a in axes)) > 1:
+        ctx.branch("uneven block grid")
+
+
+CASES = {"tree": case_tree, "trace": case_trace, "pipe": case_pipe, "joint": case_joint}
 
 
 # ---------------------------------------------------------------------------------------------
@@ -504,6 +573,32 @@ def gen_grid_reduce(ctx, n):
                                 "keepdims": rng.random() < 0.4, "split_every": rng.choice([None, None, 2, 3, 4]), "a": leaf}}
 
 
+def gen_tree(ctx, n):
+    """block grids whose reduced axes need different numbers of levels (6x2, 5x3, 17x4, 2x9 …) × axis tuples × keepdims ×
+    split_every (None, ints, per-axis dicts)"""
+    rng = ctx.rng
+    fixed = [([6, 2], None), ([5, 3], None), ([17, 4], None), ([2, 6], None), ([6, 6], None), ([9, 1], None),
+             ([6, 2], 4), ([5, 3], 4), ([7, 2, 3], None), ([3, 10], 9)]
+    for i in range(n):
+        if i < len(fixed):
+            nb, se = fixed[i]
+            axis = None
+        else:
+            nd = rng.randint(1, 3)
+            nb = [rng.choice([1, 2, 3, 4, 5, 6, 7, 9, 17, 26][: 10 if nd < 3 else 7]) for _ in range(nd)]
+            axis = rng.choice([None, list(range(nd)), 0, nd - 1, sorted({0, nd - 1})])
+            r = rng.random()
+            if r < 0.3:
+                se = None
+            elif r < 0.7:
+                se = rng.choice([2, 3, 4, 5, 8, 9, 16, 27])
+            else:
+                ax = list(range(nd)) if axis is None else ([axis] if isinstance(axis, int) else axis)
+                se = {str(a): rng.choice([2, 2, 3, 4]) for a in sorted(set(ax)) if rng.random() < 0.8}
+        yield "tree", {"numblocks": nb, "axis": axis, "keepdims": rng.random() < 0.4, "split_every": se,
+                       "fn": rng.choice(["sum", "sum", "max", "mean"])}
+
+
 def gen_index(ctx, n):
     """one or two indexing steps on a chunked array: integers (positive / negative), slices with any step and negative
     bounds, newaxis anywhere, trailing axes left out — followed (sometimes) by an elementwise op or a reduction"""
@@ -607,6 +702,7 @@ def gen_zero_chunk(ctx, n):
 
 def generate(ctx):
     yield from gen_index(ctx, ctx.n(120, 1500))
+    yield from gen_tree(ctx, ctx.n(60, 700))
     yield from gen_grid_reduce(ctx, ctx.n(30, 300))
     yield from gen_joint(ctx, ctx.n(40, 400))
     yield from gen_multistage(ctx, ctx.n(25, 250))
